@@ -1,11 +1,13 @@
 import QuiverModel.Core.Packaging.Codec
 import QuiverModel.Lemmas.Packaging.Canon
+import QuiverModel.Core.Packaging.TreeShake
 /-
 qm_c10 — driver for the renaming validator (M-Packaging). Requests:
   (prog A …) / (prog B …)       store a program in slot A / B          → ok <sizes> | bad-prog <why>
   (check-renaming eA eB)         `checkRenamingExplain A B eA eB`        → ok consts=… fns=… tuples=… types=… builtins=… resources=…
                                                                           | reject <where> <why>
   (check-identity e)             `checkRenamingExplain A A e e`          → same (sanity: every program renames to itself)
+  (shake e)                      `treeShake A e` vs slot B = real tree_shake(A, e)  → equal entry=… validate=… | differs <table> | none
   (inject f V…)                  `injectCaptures A f caps`               → ok g=… fns=… instrs=(…) consts=(…) | none
   (v2i V)                        `v2iA A v`                              → ok instrs=(…) consts=(…) | none
 The driver calls the definitions `Theorems/C10.lean` is about (`recover`, `validateB` through
@@ -50,6 +52,21 @@ def c10Step (st : C10State) (req : List Sx) : C10State × String :=
     match st.a, ea.asNat with
     | some P, some e => (st, answer P P e e)
     | _, _ => (st, "bad-request")
+  | [.list [.atom "shake", ea]] =>
+    -- `treeShake A e` compared with slot B (the real `tree_shake(A, e)`), field by field, and the
+    -- model's OWN remap tables validated against B's run-time tables
+    match st.a, st.b, ea.asNat with
+    | some P, some R, some e =>
+      match treeShake P e with
+      | none => (st, "none")
+      | some out =>
+        match bytecodeDiff out.prog R with
+        | some field => (st, s!"differs {field} entry={out.entry}")
+        | none =>
+          let v := validateB out.ren P R e out.entry
+          let why := if v then "" else s!" failing={(firstFailing (checks out.ren P R e out.entry)).getD "?"}"
+          (st, s!"equal entry={out.entry} validate={v}{why} kept-fns={out.marks.fns.length} kept-types={out.marks.types.length}")
+    | _, _, _ => (st, "bad-request")
   | [.list (.atom "inject" :: f :: caps)] =>
     -- `Program::inject_function_captures(f, caps)` on slot A (model: `injectCaptures`)
     match st.a, f.asNat, mapOpt parseVal caps with
